@@ -2,6 +2,7 @@
 Self-contained (numpy + pymoto only): its source text is embedded verbatim in replay programs."""
 import contextlib
 import io
+import signal
 import numpy as np
 import pymoto as pym
 import pymoto.common.mma as _mma_mod
@@ -121,6 +122,26 @@ def build(spec, log):
     return pym.Network(mods), sv, sr
 
 
+class _Abort(Exception):
+    pass
+
+
+SOLVE_LIMIT = 10.0   # seconds allowed for one subproblem solve (unchanged code: about 0.01 s, 3 s when it runs into its iteration cap)
+
+
+def timed(fn, *args, **kw):
+    """call fn; raise _Abort('timeout') when it has not returned after SOLVE_LIMIT seconds (a broken Newton iteration can spin for hours)"""
+    def handler(signum, frame):
+        raise _Abort('timeout')
+    old = signal.signal(signal.SIGALRM, handler)
+    signal.setitimer(signal.ITIMER_REAL, SOLVE_LIMIT)
+    try:
+        return fn(*args, **kw)
+    finally:
+        signal.setitimer(signal.ITIMER_REAL, 0)
+        signal.signal(signal.SIGALRM, old)
+
+
 def run(spec, second_maxit=None, prior=0):
     """run minimize_mma (or MMA.response twice when second_maxit is given) with the subproblem solver and the callback instrumented;
     prior = number of complete un-instrumented minimize_mma runs (3 iterations each) on the same network and signals beforehand"""
@@ -141,8 +162,12 @@ def run(spec, second_maxit=None, prior=0):
                     a=np.array(a, dtype=float), b=b.copy(), c=np.array(c, dtype=float), d=np.array(d, dtype=float), x0=None if x0 is None else x0.copy())
         buf = io.StringIO()
         with contextlib.redirect_stdout(buf):
-            ret = orig(epsimin, low, upp, alfa, beta, P, Q, a0, a, b, c, d, x0=x0)
+            ret = timed(orig, epsimin, low, upp, alfa, beta, P, Q, a0, a, b, c, d, x0=x0)
         tr['calls'].append(dict(args=args, ret=[np.array(v, dtype=float, copy=True) for v in ret], msg=buf.getvalue()))
+        if buf.getvalue():   # the solver reported that it hit its iteration cap; such solves are very slow: stop the run after the second one (the recorded part is audited)
+            tr['capped'] = tr.get('capped', 0) + 1
+            if tr['capped'] >= spec.get('cap_abort', 2):
+                raise _Abort()
         return ret
 
     def callback():
@@ -168,6 +193,9 @@ def run(spec, second_maxit=None, prior=0):
                 opt.maxIt = second_maxit
                 opt.response()
                 tr['iter'] = opt.iter
+    except _Abort as e:
+        tr['aborted'] = True
+        tr['timeout'] = 'timeout' in str(e)
     except Exception as e:   # noqa
         tr['error'] = f'{type(e).__name__}: {e}'[:300]
     finally:
@@ -218,6 +246,7 @@ def audit(spec, tr, conv=None):
 
     if not chk(tr['error'] is None, 'run completes without an exception', error=tr['error']):
         return bad
+    chk(not tr.get('timeout'), f'the subproblem solver returns a solution (none after {SOLVE_LIMIT} s; about 0.01 s on the unchanged code)', subproblems_solved=len(tr['calls']))
     sz = sizes_of(spec)
     n, m = int(np.sum(sz)), len(spec['resp']) - 1
     o = spec['opts']
